@@ -235,6 +235,9 @@ def mirror_extend_low_side(array: jax.Array, axis: int, parity: int, on_plane: b
     """
     if not on_plane:
         return parity * jnp.flip(array, axis=axis)
+    if array.shape[axis] == 1:
+        # a single kept sample on the plane has no neighbour to repeat: its low-side image is itself
+        return parity * array
     mirrored = parity * jnp.flip(_slice_axis(array, axis, 1), axis=axis)
     return jnp.concatenate([_slice_axis(mirrored, axis, 0, 1), mirrored], axis=axis)
 
